@@ -1,6 +1,8 @@
 package engines
 
 import (
+	"crypto/ecdsa"
+
 	"bytes"
 	"context"
 	"encoding/hex"
@@ -11,6 +13,7 @@ import (
 	cpceip712 "github.com/EscanBE/evermint/v12/x/cpc/eip712"
 	sdkclient "github.com/cosmos/cosmos-sdk/client"
 	"github.com/cosmos/cosmos-sdk/crypto/keyring"
+	"github.com/ethereum/go-ethereum/common"
 	cmath "github.com/ethereum/go-ethereum/common/math"
 	"github.com/spf13/cobra"
 	"io"
@@ -474,16 +477,32 @@ func TestEngineCrypto(t *testing.T) {
 		gas         uint64
 		memo        string
 		msgs        []sdk.Msg
+		// an optional second fee coin; the list is handed over in exactly this order (a transaction's fee coins need not be
+		// sorted: Tx.ValidateBasic does not demand it and TxBuilder.SetFeeAmount keeps the order)
+		fee2Amt   int64
+		fee2Denom string
+		fee2First bool
+	}
+	feeCoins := func(d docSpec) sdk.Coins {
+		c1 := sdk.NewCoin(d.feeDenom, sdkmath.NewInt(d.feeAmt))
+		if d.fee2Denom == "" || d.fee2Denom == d.feeDenom {
+			return sdk.NewCoins(c1)
+		}
+		c2 := sdk.NewCoin(d.fee2Denom, sdkmath.NewInt(d.fee2Amt))
+		if d.fee2First {
+			return sdk.Coins{c2, c1}
+		}
+		return sdk.Coins{c1, c2}
 	}
 	aminoBytes := func(d docSpec) []byte {
-		return legacytx.StdSignBytes(d.chain, d.accNum, d.seq, 0, legacytx.StdFee{Amount: sdk.NewCoins(sdk.NewCoin(d.feeDenom, sdkmath.NewInt(d.feeAmt))), Gas: d.gas}, d.msgs, d.memo)
+		return legacytx.StdSignBytes(d.chain, d.accNum, d.seq, 0, legacytx.StdFee{Amount: feeCoins(d), Gas: d.gas}, d.msgs, d.memo)
 	}
 	protoBytes := func(d docSpec, pub cryptotypes.PubKey) []byte {
 		b := txCfg.NewTxBuilder()
 		require.NoError(t, b.SetMsgs(d.msgs...))
 		b.SetMemo(d.memo)
 		b.SetGasLimit(d.gas)
-		b.SetFeeAmount(sdk.NewCoins(sdk.NewCoin(d.feeDenom, sdkmath.NewInt(d.feeAmt))))
+		b.SetFeeAmount(feeCoins(d))
 		require.NoError(t, b.SetSignatures(signing.SignatureV2{PubKey: pub, Data: &signing.SingleSignatureData{SignMode: signing.SignMode_SIGN_MODE_DIRECT}, Sequence: d.seq}))
 		bz, err := authsigning.GetSignBytesAdapter(c.s.CurrentContext, txCfg.SignModeHandler(), signing.SignMode_SIGN_MODE_DIRECT,
 			authsigning.SignerData{Address: a1.String(), ChainID: d.chain, AccountNumber: d.accNum, Sequence: d.seq, PubKey: pub}, b.GetTx())
@@ -505,6 +524,10 @@ func TestEngineCrypto(t *testing.T) {
 	for i := 0; i < nReal; i++ {
 		d := docSpec{chain: "evermint_9000-1", accNum: uint64(r.Intn(100)), seq: uint64(r.Intn(1000)), feeAmt: int64(1 + r.Intn(1_000_000)), feeDenom: c.evmDenom,
 			gas: uint64(21000 + r.Intn(900000)), memo: hx.Pick(r, []string{"", "hello", "memo with spaces"}), msgs: genMsgs()}
+		if i%3 == 1 { // two fee coins, in either order
+			d.fee2Denom, d.fee2Amt, d.fee2First = hx.Pick(r, []string{"utwo", "aaa", "zzz"}), int64(1+r.Intn(5000)), r.Bool()
+			p.Count("real:two-fee-coins")
+		}
 		am := aminoBytes(d)
 		dgA, eipBytes := digestOf(am)
 		// the same document through the Lean model (layer 1 on the canonical JSON)
@@ -536,7 +559,27 @@ func TestEngineCrypto(t *testing.T) {
 			{"account-number", func(d *docSpec) { d.accNum++ }},
 			{"sequence", func(d *docSpec) { d.seq++ }},
 			{"fee-amount", func(d *docSpec) { d.feeAmt++ }},
-			{"fee-denom", func(d *docSpec) { d.feeDenom = "utwo" }},
+			{"fee-denom", func(d *docSpec) {
+				if d.fee2Denom == "utwo" {
+					d.feeDenom = "uthree"
+				} else {
+					d.feeDenom = "utwo"
+				}
+			}},
+			{"fee-coin-order", func(d *docSpec) { // the fee is a list: the same coins in another order are another document
+				if d.fee2Denom == "" {
+					d.feeAmt += 2
+				} else {
+					d.fee2First = !d.fee2First
+				}
+			}},
+			{"fee-second-coin", func(d *docSpec) {
+				if d.fee2Denom == "" {
+					d.fee2Denom, d.fee2Amt = "utwo", 7
+				} else {
+					d.fee2Amt++
+				}
+			}},
 			{"gas", func(d *docSpec) { d.gas++ }},
 			{"memo", func(d *docSpec) { d.memo += "x" }},
 			{"memo-trailing-space", func(d *docSpec) { d.memo += " " }},
@@ -852,6 +895,76 @@ func TestEngineCrypto(t *testing.T) {
 			}
 		}
 	}
+	// `keys add` (the command that creates / recovers a key from a mnemonic): the key it stores is the BIP-39 / BIP-44 key of
+	// (mnemonic, passphrase, m/44'/60'/account'/0/index) — with the flags --account / --index, with an explicit --hd-path,
+	// and with the passphrase typed at the --interactive prompt
+	{
+		devMn := "test test test test test test test test test test test junk"
+		for j := 0; j < 10; j++ {
+			kr := keyring.NewInMemory(cdc, evhd.MultiSecp256k1Option())
+			mn := devMn
+			if j >= 3 {
+				mn, _ = bip39.NewMnemonic(randBytes(16))
+			}
+			acct, idx := uint32(hx.Pick(r, []int{0, 0, 1, 2, 5})), uint32(hx.Pick(r, []int{0, 1, 1, 3, 7}))
+			if j == 0 {
+				acct, idx = 0, 1 // the second address of every dev wallet
+			}
+			if j == 1 {
+				acct, idx = 2, 0
+			}
+			pass := hx.Pick(r, []string{"", "", "correct horse battery staple", "x"})
+			interactive := pass != "" || r.Chance(1, 3)
+			if j == 2 {
+				pass, interactive = "correct horse battery staple", true
+			}
+			path := fmt.Sprintf("m/44'/60'/%d'/0/%d", acct, idx)
+			args := []string{"add", fmt.Sprintf("ka%d", j), "--recover", "--coin-type", "60"}
+			if r.Chance(1, 4) && j > 2 {
+				args = append(args, "--hd-path", path)
+			} else {
+				args = append(args, "--account", fmt.Sprint(acct), "--index", fmt.Sprint(idx))
+			}
+			stdin := mn + "\n"
+			if interactive {
+				args = append(args, "--interactive")
+				stdin += pass + "\n"
+				if pass != "" {
+					stdin += pass + "\n"
+				}
+			}
+			cmd := evclient.KeyCommands(t.TempDir())
+			clientCtx := sdkclient.Context{}.WithKeyring(kr).WithCodec(cdc).WithInput(strings.NewReader(stdin))
+			cctx := context.WithValue(context.Background(), sdkclient.ClientContextKey, &clientCtx)
+			cmd.SetArgs(args)
+			cmd.SetIn(strings.NewReader(stdin))
+			cmd.SetOut(io.Discard)
+			cmd.SetErr(io.Discard)
+			errRun := cmd.ExecuteContext(cctx)
+			wantPriv, errD := evhd.EthSecp256k1.Derive()(mn, pass, path)
+			require.NoError(t, errD)
+			wantAddr := crypto.PubkeyToAddress(mustECDSA(t, wantPriv).PublicKey)
+			got := "none"
+			if rec, err := kr.Key(fmt.Sprintf("ka%d", j)); err == nil {
+				if pk, err := rec.GetPubKey(); err == nil && pk != nil {
+					got = common.BytesToAddress(pk.Address().Bytes()).Hex()
+				}
+			}
+			p.Count("keys-add")
+			if interactive && pass != "" {
+				p.Count("keys-add:passphrase")
+			}
+			if acct != idx {
+				p.Count("keys-add:account!=index")
+			}
+			if errRun != nil || got != wantAddr.Hex() {
+				p.Oracle("C19-derivation", "keys add %v (passphrase %q): stored key has address %s, BIP-39/44 gives %s for %s (err=%v)", args[1:], pass, got, wantAddr.Hex(), path, errRun)
+			}
+			if j == 0 && wantAddr.Hex() != "0x70997970C51812dc3A010C7d01b50e0d17dc79C8" {
+				p.Oracle("C19-derivation", "reference derivation of the dev mnemonic at index 1 is %s", wantAddr.Hex())
+			}
+		}
+	}
 	// published vectors: the mnemonic every Ethereum dev tool ships with
 	{
 		const mn = "test test test test test test test test test test test junk"
@@ -930,4 +1043,10 @@ func TestEngineCrypto(t *testing.T) {
 func common32(x *big.Int) []byte {
 	b := x.Bytes()
 	return append(make([]byte, 32-len(b)), b...)
+}
+
+func mustECDSA(t *testing.T, priv []byte) *ecdsa.PrivateKey {
+	k, err := crypto.ToECDSA(priv)
+	require.NoError(t, err)
+	return k
 }
